@@ -13,6 +13,7 @@ def value_corpus(F, tier, name):
     recs += gen.g_short_ties(F, rng, 1 if q else 20)[:: 2 if q else 1]
     recs += gen.g_low_decade(F, rng, tier, 6 if q else 300, 1 if q else 4)
     recs += gen.g_beyond_range(F, rng, 1 if q else 4)[:: 2 if q else 1]
+    recs += gen.g_every_decade(F, rng, 5 if q else 1, 1 if q else 4)
     recs += gen.g_int_ties(F, rng, 40 if q else 800)
     recs += gen.g_extremes(F, rng, big=20000 if q else 1000000)
     recs += gen.g_runs(F, rng, 80 if q else 3000)
@@ -487,6 +488,7 @@ def c05(tier):
         inputs += gen.g_seams(F, rng)[:: 3 if q else 1]
         inputs += gen.g_short_ties(F, rng, 1 if q else 10)[:: 4 if q else 1]
         inputs += gen.g_low_decade(F, rng, tier, 4 if q else 300, 1 if q else 4)[:: 2 if q else 1]
+        inputs += gen.g_every_decade(F, rng, 2 if q else 1, 1 if q else 4)
         inputs += gen.g_extremes(F, rng, big=20000)[:: 2 if q else 1]
         inputs += gen.g_runs(F, rng, 40 if q else 2000)
     inputs = gen.normalise(gen.dedup(inputs))
@@ -520,7 +522,7 @@ def c15(tier):
 
 
 def c04(tier):
-    cfgs = ["std", "std+compact"] if tier == "quick" else ["std", "std+compact", "std+alloc", "none", "compact", "compact+alloc"]
+    cfgs = ["std", "std+compact", "std+alloc"] if tier == "quick" else ["std", "std+compact", "std+alloc", "none", "compact", "compact+alloc"]
     inputs = []
     for F in (gen.F64, gen.F32):
         rng = gen.rng_for("C04" + F.name)
